@@ -196,7 +196,7 @@ PROPS = {
         "assumptions": ["F7 (a service whose started fails panics the caller of from_registry in debug builds) is avoided by the generators and recorded as a known finding"],
     },
     "C01": {
-        "families": [("mailbox", 900, 25000), ("backpressure", 400, 10000)],
+        "families": [("mailbox", 900, 25000), ("backpressure", 400, 10000), ("restart-bp", 400, 8000)],
         "monitors": ["C03"],
         "theorems": ["C01_mailbox_discipline", "C01_handler_takes_head", "C01_queued_at_most_once", "C01_no_overlap", "C01_first_in_first_handled", "C01_submission_goes_to_the_tail"],
         "nontrivial": nt_c01,
@@ -314,7 +314,7 @@ PROPS = {
         "assumptions": ["callbacks of library-defined actors (the broker) are not observable and are not checked"],
     },
     "C12": {
-        "families": [("backpressure", 800, 30000), ("mailbox", 300, 8000)],
+        "families": [("backpressure", 800, 30000), ("mailbox", 300, 8000), ("restart-bp", 500, 10000)],
         "monitors": ["C12", "C12_nowait"],
         "theorems": ["C12_bound", "C12_unbounded_never_parks", "C12_termination_unparks", "C12_queue_bound"],
         "nontrivial": nt_c12,
